@@ -1634,6 +1634,22 @@ void abtmc_observe(const char *fmt, ...)
     va_end(ap);
 }
 
+void abtmc_stat(const char *name, long long add)
+{
+    abtmc_xrec *xr = abtmc_g.xr;
+    if (!xr)
+        return;
+    for (int i = 0; i < xr->nstat; i++)
+        if (!strcmp(xr->statname[i], name)) {
+            xr->statval[i] += add;
+            return;
+        }
+    if (xr->nstat < 12) {
+        snprintf(xr->statname[xr->nstat], 32, "%s", name);
+        xr->statval[xr->nstat++] = add;
+    }
+}
+
 int abtmc_is_replay(void) { return abtmc_g.replay; }
 
 void abtmc_std_env(void)
